@@ -675,7 +675,8 @@ func runC04(c *fw.Ctx) {
 			wide := func(a, b int) int { return 2 * (a - b) }
 			c04start(c, "omap.NewFunc[int,int](difference comparator)", omap.NewFunc[int, int](wide), wide, true, func(u int) int { return 3 * u }, uni, i)
 		case 0:
-			c04start(c, "omap.New[int,int]", omap.New[int, int](), cmp.Compare[int], true, func(u int) int { return 3 * u }, uni, i)
+			off := []int{0, uni / 2, uni}[r.IntN(3)] // keys all positive, centred on zero, or all negative
+			c04start(c, "omap.New[int,int]", omap.New[int, int](), cmp.Compare[int], true, func(u int) int { return 3 * (u - off) }, uni, i)
 		case 1:
 			rev := func(a, b int) int { return cmp.Compare(b, a) }
 			// gen must enumerate the universe in comparator order
